@@ -62,6 +62,9 @@ def handle (op : String) (a r : Json) : Except String Reply := do
         | .notListed => (false, "", 0, 0, "")
         | .listed w st sz rm =>
           if running then (true, wtName w, state, size, node)   -- echoed: decided by the runner's progress
+          -- the harness read an empty record, yet the node reports a complete one with the right type: a live runner was
+          -- inside its own rewrite (truncated, not yet written) at the moment of the read and has completed it since
+          else if diskClass == "empty" && (kind == "quick" || kind == "slow") && wt == "cmd" then (true, wt, state, size, node)
           else if diskClass == "empty" then (true, wtName w, st, size, "")   -- the size is measured from the stdout file
           else (true, wtName w, st, sz, if rm.isSome then dnode else "")
       let mo := (match o with
@@ -87,7 +90,10 @@ def handle (op : String) (a r : Json) : Except String Reply := do
         else if (kind == "quick" || kind == "slow") && state == 2 && size != expectOut then
           bad := some ("C04/output-size-wrong", s!"a '{kind}' unit succeeded with recorded output size {size}, its command wrote {expectOut}")
         else if (kind == "quick" || kind == "slow") && state == 1 then
-          bad := some (if role == "runner" then "C04/runner-died-unit-left-running" else "C04/running-unit-not-followed",
+          -- whose fault: the runner process named by the record is gone (killed by the scenario: nobody records the end
+          -- of its command — the recorded finding), or it is alive and the restarted node does not follow it
+          let runnerAlive := (getBool o "runner_alive").toOption.getD false
+          bad := some (if role == "runner" || ((role == "runner-early") && !runnerAlive) then "C04/runner-died-unit-left-running" else "C04/running-unit-not-followed",
             s!"a '{kind}' unit is still reported running 1.8 s after the restart (its command runs for at most 1.2 s)")
         else if (state == 2) && expectOut > 0 && results != "ok" then
           bad := some ("C04/output-not-fetchable", s!"the output of a finished '{kind}' unit cannot be fetched completely after the restart: {results}")
